@@ -263,6 +263,17 @@ func (ctx Ctx) typeDecl(doc *ast.CommentGroup, spec *ast.TypeSpec) coq.Decl {
 	}
 	switch goTy := spec.Type.(type) {
 	case *ast.StructType:
+		if obj, ok := ctx.info.Defs[spec.Name].(*types.TypeName); ok {
+			if s, ok := obj.Type().Underlying().(*types.Struct); ok {
+				for i := 0; i < s.NumFields(); i++ {
+					if mentionsType(s.Field(i).Type(), obj.Type()) {
+						// the descriptor would be defined in terms of itself
+						// (a pointer field is just ptrT and is fine)
+						ctx.unsupported(spec, "struct type %s contains itself in the type of field %s", spec.Name.Name, s.Field(i).Name())
+					}
+				}
+			}
+		}
 		ty := coq.StructDecl{
 			Name: spec.Name.Name,
 		}
@@ -291,6 +302,37 @@ func (ctx Ctx) typeDecl(doc *ast.CommentGroup, spec *ast.TypeSpec) coq.Decl {
 			}
 		}
 	}
+}
+
+// mentionsType reports whether the GooseLang type of t mentions the named
+// type self (a pointer is ptrT whatever it points to)
+func mentionsType(t types.Type, self types.Type) bool {
+	if types.Identical(t, self) {
+		return true
+	}
+	switch t := t.(type) {
+	case *types.Slice:
+		return mentionsType(t.Elem(), self)
+	case *types.Array:
+		return mentionsType(t.Elem(), self)
+	case *types.Map:
+		return mentionsType(t.Key(), self) || mentionsType(t.Elem(), self)
+	case *types.Signature:
+		for _, tuple := range []*types.Tuple{t.Params(), t.Results()} {
+			for i := 0; i < tuple.Len(); i++ {
+				if mentionsType(tuple.At(i).Type(), self) {
+					return true
+				}
+			}
+		}
+	case *types.Struct:
+		for i := 0; i < t.NumFields(); i++ {
+			if mentionsType(t.Field(i).Type(), self) {
+				return true
+			}
+		}
+	}
+	return false
 }
 
 func toInitialLower(s string) string {
